@@ -29,6 +29,8 @@ package durablestream
 //@ method Logger.Printf(l, format, args)
 //@   effect reentrant
 
+// Stored events are never modified after they are created (as in the root package)
+//@ immutable {C10,C11,C19} eventbus.StoredEvent.Offset eventbus.StoredEvent.Type eventbus.StoredEvent.Data eventbus.StoredEvent.Timestamp
 //@ immutable {C10,C03} Store.client Store.path Store.cfg config.logger config.httpClient config.timeout config.contentType
 //@ initwriter WithHTTPClient$1 WithTimeout$1 WithContentType$1 WithLogger$1 defaultConfig NewWithContext
 
@@ -59,6 +61,14 @@ package durablestream
 //@   loop 1 invariant [idx] rangeindex < len(rawEvents) && -1 <= rangeindex
 //@   loop 1 owned events
 //@   loop 1 invariant [C10.ds.read.count] len(events) <= rangeindex + 1 && (limit > 0 ==> len(events) < limit)
+// every event handed out carries the type and the data bytes of one element of the chunk, as decoded
+// into the wire struct (no re-encoding; elements are used at most once, in order)
+//@   loop 1 invariant [C10.ds.read.content] {C10,C19} forall k int :: {events[k]} 0 <= k && k < len(events) ==> events[k] != nil &&
+//@        (exists j int :: {rawEvents[j]} 0 <= j && j <= rangeindex && unjsonOKOf(storedEventWithOffset, rawEvents[j]) &&
+//@            events[k].Type == unjsonOf(storedEventWithOffset, rawEvents[j]).Type && events[k].Data == unjsonOf(storedEventWithOffset, rawEvents[j]).Data)
+//@   ensures [C10.ds.read.content] {C10,C19} err == nil ==> (forall k int :: {result0[k]} 0 <= k && k < len(result0) ==> result0[k] != nil &&
+//@        (exists j int :: {rawEvents[j]} 0 <= j && j < len(rawEvents) && unjsonOKOf(storedEventWithOffset, rawEvents[j]) &&
+//@            result0[k].Type == unjsonOf(storedEventWithOffset, rawEvents[j]).Type && result0[k].Data == unjsonOf(storedEventWithOffset, rawEvents[j]).Data))
 //@   ensures [C10.ds.read.from] cnt(readerCall) == 1 && lastarg(readerCall, 2, String) == from
 //@   ensures [C10.ds.read.err] lastresi(chunkRead, 1, Iface) != nil ==> err != nil && result1 == from && len(result0) == 0
 //@   ensures [C10.ds.read.limit] err == nil && limit > 0 ==> len(result0) <= limit
